@@ -215,11 +215,61 @@ def window_job(params):
             p.set(jm, 'Collective', fake_collective)
             p.set(jm, 'ceil', sceil)
             jm.Jumps.collective.__wrapped__(j)
-        Wn = captured['max_steps']
+            Wn = captured.get('max_steps')
+            dflt = captured.get('max_dist', 1)   # Collective's own default when the keyword is not passed on
+            captured.clear()
+            jm.Jumps.collective.__wrapped__(j, 2.5)
+            given = captured.get('max_dist', 1)
+            captured.clear()
+            jm.Jumps.collective.__wrapped__(j, max_dist=0.5)
+            given_kw = captured.get('max_dist', 1)
         prove('window = smallest integer W with W * nu * dt >= 1', conj([Wn * x >= 1, (Wn - 1) * x < 1]))
-        prove('max_dist default 1', captured['max_dist'] == 1)
+        prove('default cut-off 1 A', dflt == 1)
+        prove('the cut-off distance given to Jumps.collective is the one used', given == 2.5 and given_kw == 0.5)
 
-    return symbolic_job(params, body, None)
+    return symbolic_job(params, body, window_job_replay)
+
+
+def window_job_replay(params, inputs):
+    import math as _m
+    import gemdat.jumps as jm
+    x = float(inputs['nu_dt'])
+    j = jm.Jumps.__new__(jm.Jumps)
+    tr_ = _J()
+    tr_.time_step = 1
+    tr_.get_lattice = lambda: None
+    j.trajectory = tr_
+    t = _J()
+    t.sites = None
+    j.transitions = t
+    captured = {}
+
+    class FakeMetrics:
+        def __init__(self, trajectory):
+            pass
+
+        def attempt_frequency(self):
+            return x, 0
+
+    def fake_collective(**kw):
+        captured.update(kw)
+        return kw
+    with Patches() as p:
+        p.set(jm, 'TrajectoryMetrics', FakeMetrics)
+        p.set(jm, 'Collective', fake_collective)
+        jm.Jumps.collective.__wrapped__(j)
+        W = captured.get('max_steps')
+        captured.clear()
+        jm.Jumps.collective.__wrapped__(j, 2.5)
+        given = captured.get('max_dist', 1)
+        captured.clear()
+        jm.Jumps.collective.__wrapped__(j, max_dist=0.5)
+        given_kw = captured.get('max_dist', 1)
+    if W != _m.ceil(1.0 / x):
+        return False, f'window {W} != ceil(1/(nu dt)) = {_m.ceil(1.0 / x)}'
+    if given != 2.5 or given_kw != 0.5:
+        return False, f'Jumps.collective(2.5) / (max_dist=0.5) used the cut-offs {given} / {given_kw}'
+    return True, 'ok'
 
 
 def sceil(v):
@@ -228,7 +278,7 @@ def sceil(v):
     return math.ceil(v)
 
 
-REPLAYS = dict(collective_job=collective_job_replay)
+REPLAYS = dict(collective_job=collective_job_replay, window_job=window_job_replay)
 
 
 def jobs(tier, seed):
